@@ -17,7 +17,7 @@ def _write(lines, path):
             f.write(json.dumps(ln, separators=(",", ":")) + "\n")
 
 
-def validate(trace_tla, cfg, executions, tag, workers=1, timeout=900, dfs=False, max_rejections=5, env=None, reset_key="a"):
+def validate(trace_tla, cfg, executions, tag, workers=1, timeout=900, dfs=False, max_rejections=5, env=None, reset_key="a", separator=True):
     """executions: list of executions, each a list of event dicts.
     Returns (n_accepted_executions, rejections, stats) where rejections is a list
     of {exec: index, line: k (0-based within the execution), event: ...}."""
@@ -32,7 +32,7 @@ def validate(trace_tla, cfg, executions, tag, workers=1, timeout=900, dfs=False,
         lines = []
         owner = []           # owner[i] = (exec index, offset) for every line
         for n, ei in enumerate(pending):
-            if n:
+            if n and separator:
                 lines.append({reset_key: "Reset"})
                 owner.append((ei, -1))
             for k, ev in enumerate(executions[ei]):
